@@ -92,8 +92,11 @@ class SGen:
             return F(e, self.pick(["lower", "string", "trim", "default"]))
         if k < 0.7:
             return ["bin", "~", N(self.pv()), e]
-        if k < 0.85:
+        if k < 0.8:
             return ["bin", "~", C("&amp;<"), e]
+        if k < 0.9:
+            # a plain subject with markup characters, the fragment as the replacement
+            return ["filter", C("<Z>&amp;"), "replace", [C("Z"), e], []]
         return ["bin", "~", F(e, "lower"), C("<t>")]
 
     def out_expr(self, st):
